@@ -149,10 +149,13 @@ def iter_seq(b, t, depth=0):
                     opt = peel(src[2][0], transparent=ID_CALLS)
                     return [("each", ("field", ("downcast", opt, "Some"), "0"), (), t[3])]
         return None
-    if is_call(t, "Iterator::map") and len(t[2]) == 2:
+    if is_call(t, ["Iterator::map", "Iterator::filter_map"]) and len(t[2]) == 2:
         sub = iter_seq(b, t[2][0], depth + 1)
         p = proj_of(f, t[2][1])
         if sub is None or p is None:
+            return None
+        if is_call(t, "Iterator::filter_map") and not (p and p[-1][0] == "lookup" and len(p) == 1):
+            # `keys.filter_map(|k| map.get(k))`: the values of the keys that are present -- the only filter_map read as a projection
             return None
         out = []
         for seg in sub:
@@ -165,7 +168,7 @@ def iter_seq(b, t, depth=0):
         return out
     if is_call(t, ITER_OF) and t[2]:
         inner = _strip(t[2][0])
-        if is_call(inner, ITER_OF + ["Iterator::map", "Iterator::chain", "iter::once", "std::iter::once", "core::iter::once"]):
+        if is_call(inner, ITER_OF + ["Iterator::map", "Iterator::filter_map", "Iterator::chain", "iter::once", "std::iter::once", "core::iter::once"]):
             return iter_seq(b, inner, depth + 1)
         return [("each", peel(_resolve_join(inner, b), transparent=ID_CALLS), (), t[3])]
     if t[0] in ("param", "field", "var"):
